@@ -16,7 +16,7 @@ CHECKS = {
                 note='trusted: reference model and descriptor reader; raising steps are C01\'s'),
     'C12': dict(engine='sim', design='5/C12', technique='deterministic simulation: seeded op schedules; every reward/termination component, composite and the step\'s (reward, flag) compared with the documented formula on (state, action, returned next state), plus direct component calls on arbitrary triples asked twice',
                 note='trusted: documented formulas in gvsim/model.py; floats compared with tolerance 1e-9; agent-on-Wall states excluded from the bump oracle; memory rewards judged on single-beacon-colour states'),
-    'C02': dict(engine='sim', design='5/C02', technique='deterministic simulation with fault injection: seeded interleaving of several live environments (twins included) with an adversary that reseeds/draws/clears every process-global source; each client compared with its solo re-execution (debug flipped), a re-seeded used environment compared with a fresh one, global generators compared around every client op (tripwire), and restart in fresh interpreters under other PYTHONHASHSEED values',
+    'C02': dict(engine='sim', design='5/C02', technique='deterministic simulation with fault injection: seeded interleaving of several live environments (twins included) with an adversary that reseeds/draws/clears every process-global source; each client compared with its solo re-execution (debug flipped), a re-seeded used environment compared with a fresh one, global generators compared around every client op (tripwire), and restart in fresh interpreters under other PYTHONHASHSEED values (reference: a fresh interpreter with a fixed hash seed); histories include functional roll-outs, numeric representations and the sampling helpers',
                 note='trusted: history digests via the descriptor reader; YAML construction draws from the library generator before a seed exists and is not judged; interleaving granularity is one public API call'),
     'C03': dict(engine='sim', design='5/C03', technique='deterministic simulation with fault injection: argument digests around every functional call, identity-graph disjointness of input and next state, caller-mutation faults on inputs/outputs, cache clearing / eviction pressure / foreign-client calls between a question and its repeat (question bank), history-free reference for memoised rewards, copies (fast_copy, deepcopy, rebuilt) must equal and hash alike after arbitrary hashing history',
                 note='trusted: descriptor reader and identity-graph walker; observation cells aliasing state cells and sharing of attribute-less objects are not judged; cache objects are never mutated by the simulated caller'),
@@ -26,15 +26,15 @@ CHECKS = {
                 note='trusted: ScriptedRng (differentially tested against numpy Generator at setup), the turn-order search (bounded to 6 obstacles, larger = undecided)'),
     'C13': dict(engine='resetsim', design='5/C13', technique='deterministic simulation owning every random outcome of the reset functions: real seeded generators and ScriptedRng with uniform / extreme outcomes over valid and invalid parameter regions; each call must raise ValueError or return a state passing an independent well-formedness validator',
                 note='trusted: the validator in gvsim/resets.py and ScriptedRng (differentially tested); non-positive shape/layout entries are outside the domain; crossing only with argument-less object types'),
-    'C14': dict(engine='resetsim', design='5/C14', technique='deterministic simulation, bounded liveness: a planner client plans on the reference model (random outcomes resolved existentially) and executes the plan on the real step function with a ScriptedRng replaying the chosen outcomes; exhaustive search over the real step function decides when no plan is found',
-                note='trusted: family compositions mirror the shipped configurations; planner failures on stochastic families and searches beyond the budget are undecided (counted, never reported); one known finding (memory_rooms) is listed in KNOWN_FINDINGS.txt'),
-    'C20': dict(engine='gymsim', design='5/C20', technique='deterministic simulation: gym-level clients (direct, gym.make(id).unwrapped, registry factory; with/without GymStateWrapper) refined op by op against a functionally threaded twin and oracle-built representations; representation switches injected at arbitrary points; adversary noise on global state',
+    'C14': dict(engine='resetsim', design='5/C14', technique='deterministic simulation, bounded liveness: a planner client plans on the reference model (random outcomes resolved existentially) and executes the plan on the real step function with a ScriptedRng replaying the chosen outcomes; exhaustive search over the real step function decides when no plan is found - for families with random dynamics (small instances) under every outcome of every draw, the outcome tree being discovered from the draws the real code makes',
+                note='trusted: family compositions mirror the shipped configurations; planner failures on larger stochastic instances and searches beyond the budget are undecided (counted, never reported); two known findings (memory_rooms; dynamic_obstacles 4x5 with 3 obstacles) are listed in KNOWN_FINDINGS.txt'),
+    'C20': dict(engine='gymsim', design='5/C20', technique='deterministic simulation: gym-level clients (direct, gym.make(id).unwrapped, registry factory; with/without GymStateWrapper) refined op by op against a functionally threaded twin and oracle-built representations; representation switches injected at arbitrary points; adversary noise on global state; a faithfulness oracle independent of the representation code (codes are an injective function of type/status/colour, agent marker and agent vector follow the pose); varied builds (action lists, shapes, view anchors) and index types',
                 note='trusted: the twin inner environment and separately constructed representation objects; indices outside range(n) and GymEnvironment.seed are not exercised'),
     'C05': dict(engine='viewsim', design='5/C05', technique='deterministic simulation (weak fit: pure function of state and view): a walking client reaches poses on edges/corners in all headings through the real move/turn functions; every observation read is compared cell by cell with the reference view geometry; the generator seam of the stochastic function is owned (ScriptedRng uniform/extreme and real seeds)',
                 note='weak fit for this technique (DESIGN.md section 0): the simulator contributes pose histories, the generator seam and the per-read oracle; trusted: view geometry of gvsim/model.py (validated against fully_transparent)'),
     'C06': dict(engine='viewsim', design='5/C06', technique='deterministic simulation with fault injection (weak fit): corrupt_hidden faults replace hidden / out-of-view world cells in a twin state at the moment of a read and the observation must not change; monotone probes; own-cell and chain condition on the bare visibility masks and on the mask the observation function itself applied; stochastic mask bounded by the deterministic one for scripted extreme and seeded draws',
                 note='weak fit (DESIGN.md section 0); the agent cell counts as a chain link whatever it holds; non-interference judged for the deterministic functions only'),
-    'C15': dict(engine='sim', design='5/C15', technique='deterministic simulation: seeded histories (corner walks, pick/drop/swap, door and box opening) over declared spaces with member worlds using every declared type/status/colour and over shipped configurations; after every step all three representations of state and observation are checked key by key against the declared space and the gym space',
+    'C15': dict(engine='sim', design='5/C15', technique='deterministic simulation: seeded histories (corner walks, pick/drop/swap, door and box opening) over declared spaces with member worlds using every declared type/status/colour and over shipped configurations; after every step all three representations of state and observation are checked key by key against the declared space and the gym space; a GymEnvironment around the same inner environment has its representations switched and what it returns is checked against the space it advertises at that moment',
                 note='trusted: own shape/dtype/bounds check; member worlds use only declared types and colours; views have their origin inside'),
     'C17': dict(engine='configsim', design='5/C17', technique='deterministic simulation with fault injection on the configuration input: every shipped file built by the real factory and by an independent interpreter of the data (M-config) with digest-equal seeded histories; data-level corruption and text-level corruption (truncation, line loss / duplication, byte flips) served through an in-memory file behind open; classified corruptions must be rejected with SchemaError/ValueError, buildable ones must behave as described',
                 note='trusted: M-config (own reading of names, reserved keys and signatures); unparsable text may raise anything; damage outside the statement\'s list is undecided (counted)'),
